@@ -165,18 +165,22 @@ def life_corr(ctx, binp, corr_broken, seed, n, steps):
     last = ""
     ndiff = 0
     prev_dump = cur_dump = ""
+    since_dump = 0
     for i, (o, a) in enumerate(zip(ops, impl)):
         b = model[i] if i < len(model) else "<missing>"
         w = o.split()[0]
         if w not in ("dump", "meta", "files", "settle"):
             last = o
             prev_dump = cur_dump
+            since_dump += 1
             ctx.count_case(o, nontrivial=a.startswith("ok"))
         else:
             ctx.evaluations += 1
         if w == "dump":
             cur_dump = a
-            bad = life_direct_oracle(last, prev_dump, a)
+            # before/after comparison only when exactly one operation separates the two dumps
+            bad = life_direct_oracle(last, prev_dump, a) if since_dump == 1 else None
+            since_dump = 0
             if bad:
                 ctx.violation(bad[0], bad[1], json.dumps({"kind": "seed", "test": "TestVerifE5LifeCorr", "seed": seed,
                                                           "n": n, "steps": steps, "line": i, "after": last}))
